@@ -35,6 +35,22 @@ func matrixKey(idx int, rng *rand.Rand) []byte {
 	return k
 }
 
+// nearKey moves one 8-byte little-endian field of a genuine key (or its last byte) by a few units.
+func nearKey(rng *rand.Rand, in []byte) []byte {
+	b := append([]byte(nil), in...)
+	d := uint64(1 + rng.Intn(3))
+	if rng.Intn(2) == 0 {
+		d = -d
+	}
+	if len(b) >= 9 {
+		off := 1 + 8*rng.Intn((len(b)-1)/8)
+		binary.LittleEndian.PutUint64(b[off:], binary.LittleEndian.Uint64(b[off:])+d)
+	} else if len(b) > 1 {
+		b[len(b)-1] += byte(d)
+	}
+	return b
+}
+
 func mutate(rng *rand.Rand, in []byte) []byte {
 	b := append([]byte(nil), in...)
 	n := 1 + rng.Intn(3)
